@@ -706,7 +706,11 @@ Lemma sort_by_in {A} (lt : A -> A -> bool) l y : In y (sort_by lt l) -> In y l.
 Proof. unfold sort_by. intros H. destruct (sort_fold_in lt l [] y H) as [[]|H']; assumption. Qed.
 
 Lemma unique_in rloc protos y : In y (unique_protoclusters rloc protos) -> In y protos.
-Proof. unfold unique_protoclusters. destruct (negb (bridges rloc)); apply sort_by_in. Qed.
+Proof.
+  unfold unique_protoclusters. destruct (negb (bridges rloc)); intro H.
+  - apply sort_by_in in H. exact (sort_by_in _ _ _ H).
+  - exact (sort_by_in _ _ _ H).
+Qed.
 
 Lemma pack_in areas len rows r y :
   pack areas len = Ok rows -> In r rows -> In y (r_contents r) -> In y areas.
